@@ -326,11 +326,12 @@ pub struct Body<'a> {
     lifted: &'a mut Vec<Item>,
     rev_ranges: Vec<(String, Expr, Expr)>,
     find_counter: usize,
+    pipe_counter: usize,
 }
 
 impl<'a> Body<'a> {
     pub fn new(unit: &'a Unit, log: &'a mut Log, func: String, lifted: &'a mut Vec<Item>) -> Self {
-        Body { unit, log, func, counter: 0, closure_counter: 0, lifted, rev_ranges: vec![], find_counter: 0 }
+        Body { unit, log, func, counter: 0, closure_counter: 0, lifted, rev_ranges: vec![], find_counter: 0, pipe_counter: 0 }
     }
 
     fn note(&mut self, rule: &str, detail: String) {
@@ -375,8 +376,70 @@ impl<'a> Body<'a> {
     /// remaining map stages.  Side conditions checked here: a linear chain of these adapters only, one-parameter closures.
     /// What is dropped: laziness (the closures are called stage by stage instead of interleaved) — equivalent when the
     /// closures do not share mutable state, which rustc's borrow checker re-checks on the rewritten body.
+    /// R30: a linear adapter chain `SRC.iter()[.enumerate()] (.map|.filter)* .limit_sort_unstable(L, CMP) (.map|.filter)* .collect()`
+    /// as the tail expression of the function, or as the initialiser of a `let`, becomes two staged `while` loops around
+    /// `limit_sort_all(items, L, CMP)`.
     fn rule_pipeline(&mut self, block: &mut Block, ret: &ReturnType) -> bool {
-        let Some(Stmt::Expr(tail, None)) = block.stmts.last() else { return false };
+        let mut done = false;
+        // `let x = <chain>;`
+        for st in block.stmts.iter_mut() {
+            if let Stmt::Local(l) = st {
+                if let Some(init) = l.init.as_mut() {
+                    if init.diverge.is_none() {
+                        let out_ty: Option<Type> = self.pipeline_opt("pipeline_out").map(|t| syn::parse_str(&t).unwrap_or_else(|e| fail(&format!("bad pipeline_out: {e}"))));
+                        if let Some(stmts) = self.pipeline_stmts(&init.expr, out_ty.unwrap_or(parse_quote!(Vec<_>))) {
+                            let blk: Expr = parse_quote!({ #(#stmts)* });
+                            *init.expr = blk;
+                            done = true;
+                        }
+                    }
+                }
+            }
+        }
+        if let Some(Stmt::Expr(tail, None)) = block.stmts.last() {
+            let out_ty: Type = match ret { ReturnType::Type(_, t) => (**t).clone(), _ => parse_quote!(Vec<_>) };
+            if let Some(stmts) = self.pipeline_stmts(&tail.clone(), out_ty) {
+                block.stmts.pop();
+                block.stmts.extend(stmts);
+                done = true;
+            }
+        }
+        done
+    }
+
+    fn pipeline_opt(&self, key: &str) -> Option<String> {
+        self.unit.opts.get(key).and_then(|v| v.as_table()).and_then(|t| t.get(&self.func)).and_then(|v| v.as_str()).map(|s| s.to_string())
+    }
+
+    /// field-wise bindings for a closure parameter pattern `pat` matched against the place `e`;
+    /// by_ref: the closure receives `&item` (filter), otherwise the item itself (map)
+    fn pipeline_bind(pat: &Pat, e: &TokenStream, by_ref: bool) -> Option<TokenStream> {
+        match pat {
+            Pat::Tuple(t) => {
+                let mut out = TokenStream::new();
+                for (k, sub) in t.elems.iter().enumerate() {
+                    let idx = syn::Index::from(k);
+                    match sub {
+                        Pat::Wild(_) => {}
+                        Pat::Ident(pi) if pi.by_ref.is_none() && pi.subpat.is_none() => {
+                            let x = &pi.ident;
+                            if by_ref { out.extend(quote!(let #x = &#e.#idx;)); } else { out.extend(quote!(let #x = #e.#idx;)); }
+                        }
+                        Pat::Reference(pr) => {
+                            let Pat::Ident(pi) = &*pr.pat else { return None };
+                            let x = &pi.ident;
+                            out.extend(quote!(let #x = *#e.#idx;));
+                        }
+                        _ => return None,
+                    }
+                }
+                Some(out)
+            }
+            _ => None,
+        }
+    }
+
+    fn pipeline_stmts(&mut self, tail: &Expr, out_ty: Type) -> Option<Vec<Stmt>> {
         // unroll the chain
         let mut stages: Vec<(String, Vec<Expr>)> = vec![];
         let mut cur: &Expr = tail;
@@ -389,44 +452,80 @@ impl<'a> Body<'a> {
                         src = (*m.receiver).clone();
                         break;
                     }
-                    if !["map", "filter", "limit_sort_unstable", "collect"].contains(&name.as_str()) {
-                        return false;
+                    if !["map", "filter", "limit_sort_unstable", "collect", "enumerate"].contains(&name.as_str()) {
+                        return None;
                     }
                     stages.push((name, m.args.iter().cloned().collect()));
                     cur = &m.receiver;
                 }
-                _ => return false,
+                _ => return None,
             }
         }
         stages.reverse();
-        if stages.last().map(|s| s.0.as_str()) != Some("collect") {
-            return false;
+        if stages.last().map(|s| s.0.as_str()) != Some("collect") || !stages.iter().any(|s| s.0 == "limit_sort_unstable") {
+            return None;
         }
-        let k = self.fresh();
-        let (buf, sel, out, i, j, cur_v) = (ident(&format!("__items{k}")), ident(&format!("__sel{k}")), ident(&format!("__out{k}")), ident(&format!("__i{k}")), ident(&format!("__j{k}")), ident("__cur"));
+        let k = self.pipe_counter;
+        self.pipe_counter += 1;
+        let (buf, sel, out, i, j, cur_v) = (ident(&format!("__items{k}")), ident(&format!("__sel{k}")), ident(&format!("__out{k}")), ident(&format!("__p{k}")), ident(&format!("__q{k}")), ident("__cur"));
         let mut pre: Vec<TokenStream> = vec![];
         let mut post: Vec<TokenStream> = vec![];
         let mut seen_sel: Option<(Expr, Expr)> = None;
         let mut first = true;
         let mut cur_is_ref = false;
-        for (name, args) in stages.iter() {
+        let mut cur_defined = false;     // `__cur` holds the current element
+        let n_stage = stages.len();
+        for (sx, (name, args)) in stages.iter().enumerate() {
             match name.as_str() {
                 "collect" => {}
+                "enumerate" => {
+                    if !first || !args.is_empty() {
+                        return None;
+                    }
+                    // the element is the pair (position, &element)
+                    pre.push(quote!(let #cur_v = (__ix, &#src[__ix]);));
+                    cur_defined = true;
+                    first = false;
+                }
                 "limit_sort_unstable" => {
                     if args.len() != 2 || seen_sel.is_some() {
-                        return false;
+                        return None;
+                    }
+                    if !cur_defined && first {
+                        // no stage before the selection: the items are `&element`
+                        pre.push(quote!(let #cur_v = &#src[__ix];));
+                        first = false;
                     }
                     seen_sel = Some((args[0].clone(), args[1].clone()));
+                    cur_defined = false;
                 }
                 "map" | "filter" => {
-                    let Some(Expr::Closure(c)) = args.first() else { return false };
+                    let Some(Expr::Closure(c)) = args.first() else { return None };
                     if c.inputs.len() != 1 {
-                        return false;
+                        return None;
                     }
                     let p = &c.inputs[0];
                     let body = &c.body;
                     let post_empty = post.is_empty();
-                    let target = if seen_sel.is_none() { &mut pre } else { &mut post };
+                    let in_post = seen_sel.is_some();
+                    let target = if !in_post { &mut pre } else { &mut post };
+                    if matches!(p, Pat::Tuple(_)) {
+                        // tuple patterns: field-wise bindings (rustc validates the by-value ones: the fields must be Copy)
+                        let place: TokenStream = if in_post && post_empty { quote!(#sel[__jx]) } else { quote!(#cur_v) };
+                        let binds = Self::pipeline_bind(p, &place, name == "filter")?;
+                        if name == "map" {
+                            target.push(quote!(#binds let #cur_v = #body;));
+                            cur_is_ref = false;
+                        } else {
+                            if in_post && post_empty {
+                                target.push(quote!(let #cur_v = #sel[__jx];));
+                            }
+                            target.push(quote!(let __keep = { #binds #body }; if !__keep { continue; }));
+                        }
+                        first = false;
+                        cur_defined = true;
+                        continue;
+                    }
                     if name == "map" {
                         if first {
                             // first stage sees `&element` of the source slice
@@ -436,45 +535,65 @@ impl<'a> Body<'a> {
                             } else {
                                 target.push(quote!(let #p = &#src[__ix]; let #cur_v = #body;));
                             }
-                        } else if seen_sel.is_some() && post_empty {
+                        } else if in_post && post_empty {
                             target.push(quote!(let #p = &#sel[__jx]; let #cur_v = #body;));
                         } else {
                             target.push(quote!(let #p = #cur_v; let #cur_v = #body;));
                         }
                         cur_is_ref = false;
-                    } else if seen_sel.is_some() && post_empty {
+                    } else if in_post && post_empty {
                         // a filter directly after the selection sees `&element` of the selected items
                         target.push(quote!(let #cur_v = &#sel[__jx]; let __keep = { let #p = #cur_v; #body }; if !__keep { continue; }));
                         cur_is_ref = true;
+                    } else if first {
+                        // a filter as the first stage sees `&&element`
+                        target.push(quote!(let #cur_v = &#src[__ix]; let __keep = { let #p = &#cur_v; #body }; if !__keep { continue; }));
                     } else if cur_is_ref {
                         target.push(quote!(let __keep = { let #p = #cur_v; #body }; if !__keep { continue; }));
                     } else {
                         target.push(quote!(let __keep = { let #p = &#cur_v; #body }; if !__keep { continue; }));
                     }
                     first = false;
+                    cur_defined = true;
                 }
-                _ => return false,
+                _ => return None,
             }
+            let _ = (sx, n_stage);
         }
-        let Some((limit, cmp)) = seen_sel else { return false };
-        self.note("R30", format!("tail iterator pipeline over `{}` -> staged loops around limit_sort_all (LS contract)", src.to_token_stream()));
-        // element type of the intermediate buffer from the unit file (validated by rustc); the result type is the function's
-        let item_ty: Type = self.unit.opts.get("pipeline_item").and_then(|v| v.as_table()).and_then(|t| t.get(&self.func)).and_then(|v| v.as_str())
+        let (limit, cmp) = seen_sel?;
+        if post.is_empty() {
+            post.push(quote!(let #cur_v = #sel[__jx];));
+        }
+        // a closure comparator is replaced by the opaque function the unit names for it (its text is pinned by hash): the
+        // selection contract LS does not depend on it, the ordering it induces is lane K's business
+        let cmp_ts: TokenStream = if let Expr::Closure(_) = &cmp {
+            let text = cmp.to_token_stream().to_string();
+            let h = format!("{:016x}", fnv64(&text));
+            let spec = self.pipeline_opt("pipeline_cmp").unwrap_or_else(|| fail(&format!("R30: {} has a closure comparator; name an opaque stand-in in [opts.pipeline_cmp] (text hash {h})", self.func)));
+            let mut it = spec.split_whitespace();
+            let name = it.next().unwrap_or("");
+            let sha = it.next().unwrap_or("");
+            let changed = if !sha.is_empty() && sha != h { " CHANGED" } else { "" };
+            self.note("R12", format!("comparator closure of the selection replaced by {name}; closure text hash {h}{changed}"));
+            let id = ident(name);
+            quote!(#id)
+        } else {
+            cmp.to_token_stream()
+        };
+        self.note("R30", format!("iterator pipeline over `{}` -> staged loops around limit_sort_all (LS contract)", src.to_token_stream()));
+        // element type of the intermediate buffer from the unit file (validated by rustc)
+        let item_ty: Type = self.pipeline_opt("pipeline_item")
             .map(|t| syn::parse_str(&format!("Vec<{t}>")).unwrap_or_else(|e| fail(&format!("bad pipeline_item: {e}")))).unwrap_or(parse_quote!(Vec<_>));
-        let out_ty: Type = match ret { ReturnType::Type(_, t) => (**t).clone(), _ => parse_quote!(Vec<_>) };
-        let stmts = parse_stmts(quote!(
+        Some(parse_stmts(quote!(
             let mut #buf: #item_ty = Vec::new();
             let mut #i = 0;
             while #i < #src.len() { let __ix = #i; #i += 1; #(#pre)* #buf.push(#cur_v); }
-            let #sel = limit_sort_all(#buf, #limit, #cmp);
+            let #sel = limit_sort_all(#buf, #limit, #cmp_ts);
             let mut #out: #out_ty = Vec::new();
             let mut #j = 0;
             while #j < #sel.len() { let __jx = #j; #j += 1; #(#post)* #out.push(#cur_v); }
             #out
-        ));
-        block.stmts.pop();
-        block.stmts.extend(stmts);
-        true
+        )))
     }
 
     fn finish_fn(&mut self, sig: &mut Signature, block: &mut Block) {
